@@ -28,6 +28,8 @@ fn main() {
 	let hook_id = &argv[2];
 	let behaviour = &argv[3];
 	let mut snaps: Vec<String> = vec![];
+	let mut touch: Vec<String> = vec![];
+	let mut remove: Vec<String> = vec![];
 	let mut sleep_ms = 0u64;
 	let mut i = 4;
 	let mut rest: Vec<String> = vec![];
@@ -35,6 +37,14 @@ fn main() {
 		match argv[i].as_str() {
 			"--snap" if i + 1 < argv.len() => {
 				snaps.push(argv[i + 1].clone());
+				i += 2;
+			}
+			"--touch" if i + 1 < argv.len() => {
+				touch.push(argv[i + 1].clone());
+				i += 2;
+			}
+			"--remove" if i + 1 < argv.len() => {
+				remove.push(argv[i + 1].clone());
 				i += 2;
 			}
 			"--sleep-ms" if i + 1 < argv.len() => {
@@ -70,6 +80,13 @@ fn main() {
 		.collect();
 	if sleep_ms > 0 {
 		std::thread::sleep(std::time::Duration::from_millis(sleep_ms));
+	}
+	// side effects an administrator's hook may have on the file being written (after the snapshot)
+	for p in touch.iter().filter(|p| !p.is_empty()) {
+		let _ = std::fs::OpenOptions::new().create(true).append(true).open(p);
+	}
+	for p in remove.iter().filter(|p| !p.is_empty()) {
+		let _ = std::fs::rename(p, format!("{p}.bak"));
 	}
 	let umask = unsafe {
 		let m = libc::umask(0);
